@@ -414,6 +414,35 @@ fn mode_c(seed: u64, variant: u64) -> Result<String> {
     } else {
         dsti
     };
+    // material for the extracted copy model (`needed`): the snapshot trees with their tree ids, and per run the
+    // relevant part of the destination index before it and the (type, id) pairs the run added
+    let mut extra = String::new();
+    {
+        let get = |id: &TreeId| -> Result<Tree> { Ok(src.get_tree(id)?) };
+        let short = |id: &Id| id_to_u64(id) >> 20;
+        for (i, s) in snaps.iter().enumerate() {
+            extra.push_str(" | T");
+            render(&get, &s.tree, Style::Real, &mut extra)?;
+            let dirs: Vec<String> = lists[i]
+                .iter()
+                .filter_map(|(p, n)| match (n.is_dir(), &n.subtree) {
+                    (true, Some(t)) => Some(format!("{} {}", path_hex(p), short(&Id::from(**t)))),
+                    _ => None,
+                })
+                .collect();
+            extra.push_str(&format!(" | I {i} {} {} {}", short(&Id::from(*s.tree)), dirs.len(), dirs.join(" ")));
+        }
+        let all_reach = reach(&[0, 1, 2]);
+        for (k, (before, after, which)) in runs.iter().enumerate() {
+            let b: Vec<String> = before.intersection(&all_reach).map(|(t, i)| format!("{} {}", u8::from(*t), short(i))).collect();
+            let d: Vec<String> = after.difference(before).map(|(t, i)| format!("{} {}", u8::from(*t), short(i))).collect();
+            extra.push_str(&format!(
+                " | Q {k} {} {} | B {k} {} {} | D {k} {} {}",
+                which.len(), which.iter().map(usize::to_string).collect::<Vec<_>>().join(" "),
+                b.len(), b.join(" "), d.len(), d.join(" ")
+            ));
+        }
+    }
     for (before, after, which) in &runs {
         let expected: BTreeSet<(bool, Id)> = reach(which).difference(before).copied().collect();
         let added: BTreeSet<(bool, Id)> = after.difference(before).copied().collect();
@@ -480,7 +509,7 @@ fn mode_c(seed: u64, variant: u64) -> Result<String> {
     }
     let ok = check && ls_equal && dump_equal && found && restore_equal && needed_ok;
     Ok(format!(
-        "{} check={} found={} ls_equal={} dump_equal={} restore_equal={} needed_ok={} needed={needed_total} damaged={damaged} lost_blobs={lost_blobs} lost_tree_pack={lost_tree_pack} copies={} present_before={} coll={} coll_tree={} prepop={} files={} detail={}",
+        "{} check={} found={} ls_equal={} dump_equal={} restore_equal={} needed_ok={} needed={needed_total} damaged={damaged} lost_blobs={lost_blobs} lost_tree_pack={lost_tree_pack} copies={} present_before={} coll={} coll_tree={} prepop={} files={} detail={}{extra}",
         if ok { "ok" } else { "fail what=copy" },
         u8::from(check), u8::from(found), u8::from(ls_equal), u8::from(dump_equal), u8::from(restore_equal), u8::from(needed_ok), copies, present,
         u8::from(coll), coll_tree, u8::from(prepop), lists.iter().map(Vec::len).sum::<usize>(), if detail.is_empty() { "-".into() } else { detail }
@@ -614,8 +643,13 @@ fn mode_w(seed: u64, variant: u64) -> Result<String> {
             _ => format!("!{ps}/*"),
         });
     }
+    // variant bit 8: globs that may match the ROOT path itself (the empty path handed to Rewriter::rewrite_tree)
+    if variant & 8 == 8 {
+        globs = vec![["!*", "!**", "!/**", "!/*", "!**/*"][r.below(5) as usize].to_string()];
+    }
     let excludes = Excludes::default().globs(globs.clone());
     let matcher = excludes.as_override()?;
+    let root_ignored = matcher.matched(Path::new(""), true).is_ignore();
     let ident = NodeModification::default()
         .set_atime(TimeOption::Yes)
         .set_ctime(TimeOption::Yes)
@@ -695,9 +729,9 @@ fn mode_w(seed: u64, variant: u64) -> Result<String> {
         render(&get, &new[0].tree, Style::Real, &mut extra)?;
     }
     Ok(format!(
-        "{} check={} paths_ok={} nodes_ok={} dumps_ok={} entries={} excluded={} shared_dirs={shared_dirs} new_snapshots={} globs={} detail={}{extra}",
+        "{} check={} paths_ok={} nodes_ok={} dumps_ok={} entries={} excluded={} root_ignored={} shared_dirs={shared_dirs} new_snapshots={} globs={} detail={}{extra}",
         if ok { "ok" } else { "fail what=rewrite" },
-        u8::from(check), u8::from(paths_ok), u8::from(nodes_ok), u8::from(dumps_ok), before.len(), nexcl, new.len(),
+        u8::from(check), u8::from(paths_ok), u8::from(nodes_ok), u8::from(dumps_ok), before.len(), nexcl, u8::from(root_ignored), new.len(),
         flat(&globs.join(",")), detail
     ))
 }
@@ -707,7 +741,16 @@ fn mode_w(seed: u64, variant: u64) -> Result<String> {
 fn mode_r(seed: u64, variant: u64) -> Result<String> {
     let mut r = SplitMix(seed);
     let tp = TreeParams { max_entries: 30, max_depth: 4, max_file: 30_000, odd_names: variant & 4 == 4, symlinks: true, hardlinks: false };
-    let es = gen_tree(&mut r, &tp);
+    let mut es = gen_tree(&mut r, &tp);
+    // variant bit 8: a file `k` whose marked name `k.repaired` sorts AFTER its siblings `k+`, `k-1` ('+', '-' < '.'):
+    // losing k's data renames it in place, the repaired tree is then out of order
+    let out_of_order = variant & 8 == 8;
+    if out_of_order {
+        let t = (1_600_000_000, 0);
+        es.push(Entry { path: "m/k".into(), kind: Kind::File(Content::Random { seed: seed ^ 0x5151, len: 3000 }), mode: 0o644, mtime: t });
+        es.push(Entry { path: "m/k+".into(), kind: Kind::File(Content::Random { seed: seed ^ 0x5252, len: 50 }), mode: 0o644, mtime: t });
+        es.push(Entry { path: "m/k-1".into(), kind: Kind::File(Content::Random { seed: seed ^ 0x5353, len: 60 }), mode: 0o644, mtime: t });
+    }
     let es2 = gen_tree(&mut r, &TreeParams { max_entries: 8, ..tp.clone() });
     let td = tempfile::tempdir()?;
     let (d1, d2) = (td.path().join("d1"), td.path().join("d2"));
@@ -756,7 +799,17 @@ fn mode_r(seed: u64, variant: u64) -> Result<String> {
         return Ok(format!("ok intact_unchanged={} damaged=0", u8::from(intact_unchanged)));
     }
     packs.sort();
-    let (victim, nblobs) = packs[r.below(packs.len() as u64) as usize];
+    let (mut victim, mut nblobs) = packs[r.below(packs.len() as u64) as usize];
+    if out_of_order {
+        // lose the data of src/m/k
+        if let Some((_, n)) = lists[0].iter().find(|(p, _)| p == Path::new("src/m/k")) {
+            if let Some(d) = n.content.iter().flatten().next() {
+                let pack = Id::from(*repo.get_index_entry::<DataId>(d)?.pack);
+                victim = pack;
+                nblobs = packs.iter().find(|p| p.0 == pack).map_or(1, |p| p.1);
+            }
+        }
+    }
     store.remove(FileType::Pack, &victim, false)?;
     let repo = repo.drop_index();
     repo.repair_index(&RepairIndexOptions::default(), false)?;
@@ -844,15 +897,15 @@ fn mode_r(seed: u64, variant: u64) -> Result<String> {
         };
         let orig: BTreeMap<&PathBuf, &Node> = lists[oi].iter().map(|(p, n)| (p, n)).collect();
         let d = dumps(&repo, &l);
-        let mut prev: Option<(PathBuf, String)> = None;
+        let mut prev: Option<(PathBuf, std::ffi::OsString)> = None;
         for (p, n) in &l {
             let parent = p.parent().map(Path::to_path_buf).unwrap_or_default();
             if let Some((pp, pn)) = &prev {
-                if *pp == parent && *pn >= n.name {
+                if *pp == parent && pn.as_os_str() >= &*n.name() {
                     unsorted += 1;
                 }
             }
-            prev = Some((parent, n.name.clone()));
+            prev = Some((parent, n.name().into_owned()));
             if !n.is_file() {
                 continue;
             }
@@ -879,16 +932,51 @@ fn mode_r(seed: u64, variant: u64) -> Result<String> {
             }
         }
     }
+    // a repaired snapshot is a snapshot like any other: every entry must be found by path, and merging it with
+    // itself must give back its paths (the marker suffix can put a renamed file out of order in its tree)
+    let new_snaps: Vec<SnapshotFile> = after.iter().filter(|s| !before_ids.contains(s.id.to_hex().as_str())).cloned().collect();
+    let (mut lookup_ok, mut merge_self_ok) = (true, true);
+    for s in &new_snaps {
+        if let Ok(l) = listing(&repo, s) {
+            for (p, n) in &l {
+                match repo.node_from_path(s.tree, p) {
+                    Ok(m) if m == *n => {}
+                    _ => lookup_ok = false,
+                }
+            }
+        }
+    }
+    let mut merged = Vec::new();
+    for s in &new_snaps {
+        merged.push((s.clone(), repo.merge_snapshots(&[s.clone(), s.clone()], &last_modified_node, SnapshotFile::default())?));
+    }
+    let repo = repo.drop_index().to_indexed()?;
+    for (s, m) in &merged {
+        let mut a: Vec<PathBuf> = listing(&repo, s)?.into_iter().map(|x| x.0).collect();
+        let mut b: Vec<PathBuf> = listing(&repo, m)?.into_iter().map(|x| x.0).collect();
+        a.sort();
+        b.sort();
+        if a != b {
+            merge_self_ok = false;
+            if detail == "-" {
+                detail = format!("merging_a_repaired_snapshot_with_itself_gives_{}_paths_instead_of_{}", b.len(), a.len());
+            }
+        }
+    }
+    if !lookup_ok && detail == "-" {
+        detail = "entry_of_a_repaired_snapshot_not_found_by_path".into();
+    }
     // with `delete` the damaged originals are gone, so the whole repository must check clean again
-    let ok = intact_unchanged && kept_ok && ls_ok && (!opts.delete || check);
-    if ok != (intact_unchanged && kept_ok && ls_ok) {
+    let base_ok = intact_unchanged && kept_ok && ls_ok && lookup_ok && merge_self_ok;
+    let ok = base_ok && (!opts.delete || check);
+    if ok != base_ok {
         detail = "check_reports_errors_after_repair_with_delete".into();
     }
     Ok(format!(
-        "{} intact_unchanged={} damaged=1 tree_pack={} blobs_lost={} kept_ok={} ls_ok={} check={} repaired={} marked={} unmarked_files={} unsorted={} snapshots_after={} detail={}{extra}",
+        "{} intact_unchanged={} damaged=1 tree_pack={} blobs_lost={} kept_ok={} ls_ok={} check={} repaired={} marked={} unmarked_files={} unsorted={} lookup_ok={} merge_self_ok={} snapshots_after={} detail={}{extra}",
         if ok { "ok" } else { "fail what=repair" },
         u8::from(intact_unchanged), u8::from(want_tree), nblobs, u8::from(kept_ok), u8::from(ls_ok), u8::from(check), repaired, marked,
-        unmarked_files, unsorted, after.len(), detail
+        unmarked_files, unsorted, u8::from(lookup_ok), u8::from(merge_self_ok), after.len(), detail
     ))
 }
 
